@@ -87,7 +87,7 @@ def main():
         if twin and res["state"] == "CONFIRMED":
             tw = getattr(mod, func + "__reach", None)
             if tw is not None:
-                r2 = analyze(tw, min(timeout, 60))
+                r2 = analyze(tw, max(60, timeout / 2))
                 res["twin"] = r2["state"]
                 res["twin_message"] = r2["message"][:300]
                 res["cpu_s"] = round(res["cpu_s"] + r2["cpu_s"], 2)
